@@ -261,6 +261,9 @@ def scenarios(draw, *, max_machines=6, max_obs=4, max_nodes=6,
     elif mode == 'roomy':
         need = math.floor(sum(vols) / 0.6) + 1
         hot = {"capacity": need + draw(st.sampled_from([0, 1, 7, need, 9 * need]))}
+        if sum(vols) % 3 == 0 and draw(st.integers(0, 2)) == 0:
+            # boundary: all data together fill the hot buffer to EXACTLY the 60 % tiering threshold (not beyond it)
+            hot = {"capacity": sum(vols) * 5 // 3}
     else:  # tiering region: each observation alone fits, but the sum may exceed 60 %
         big = max(vols)
         hot = {"capacity": draw(st.sampled_from([big + 1, int(big * 1.5) + 1, big * 2, big * 3]))}
